@@ -514,6 +514,7 @@ func init() {
 		registerReplay("C01/inprocess", func(c wireCase) *fail { return runWireCase(c, nil) })
 		registerReplay("C01/raw-peer", runRawCase)
 		registerReplay("C01/client-pairs", runClientPairCase)
+		registerReplay("C01/concurrent-reads", runConcReadCase)
 	})
 }
 
@@ -521,6 +522,16 @@ func TestC01(t *testing.T) {
 	h := begin(t, "C01")
 	defer h.Finish()
 	env := h.Env
+	// two reads in flight after reads that ended at the end of the file: the payload
+	// of each Rread is what the backend produced for that request (engine of C11)
+	rapidCases(h, "concurrent-reads", env.PerShard(env.Pick(400, 20000)), func(rt *rapid.T) concReadCase {
+		return concReadCase{EOFReads: rapid.IntRange(1, 4).Draw(rt, "eof"), SizeA: rapid.SampledFrom([]int{1, 100, 3000, 5000, 12000}).Draw(rt, "sa"),
+			SizeB: rapid.SampledFrom([]int{1, 100, 3000, 5000}).Draw(rt, "sb"), Msize: rapid.SampledFrom([]uint32{4096, 8192, 65536}).Draw(rt, "msize"),
+			After: rapid.Bool().Draw(rt, "after")}
+	}, func(c concReadCase) *fail {
+		h.Case(evid.HashJSON(c), true, "concurrent-reads")
+		return runConcReadCase(c)
+	})
 	// two replies to one client decoded back to back: every caller reconstructs the
 	// values of its own reply frame (engine of C18)
 	for rep := 0; rep < env.Pick(48, 640)/env.NShards+1; rep++ {
